@@ -387,6 +387,8 @@ class RealPair:
         rfd, wfd = ebp.ebd_read.fileno(), ebp.ebd_write.fileno()
         ok = 0
         while time.time() - t0 < limit:
+            if _proc_stat(pid)[0] in (None, "Z", "X"):
+                return False  # the daemon is gone (killed from outside?)
             if (
                 [p for p, _ in _group_members(pid)] == [pid]
                 and _wchan(f"/proc/{pid}/wchan") in ("anon_pipe_read", "pipe_read", "pipe_wait")
